@@ -168,8 +168,13 @@ impl<K> Policy<K> {
             return;
         }
 
-        let victim =
-            self.lru.peek_least_recent(lru::Region::Probation).unwrap();
+        let Some(victim) = self.lru.peek_least_recent(lru::Region::Probation)
+        else {
+            // Nothing in probation to compete with (everything else has been
+            // removed or is protected): the key simply goes back to probation.
+            self.lru.move_key_to_head_of_region(unpin, lru::Region::Probation);
+            return;
+        };
 
         let (pinned_frequency, victim_frequency) = {
             let pinned_hash = build_hash.hash_one(unpin);
